@@ -3,8 +3,7 @@ from __future__ import annotations
 
 import ast
 
-from ..source import norm, const_value, walk_no_nested, AnalysisError
-from .common import is_name, params, returns_of, calls_in, stores_in, flatten_targets, root_name
+from ..source import AnalysisError
 from .keydomain import reader_kinds
 from . import subdomain_folds as sf
 
